@@ -123,8 +123,8 @@ type world struct {
 	// monitor state
 	lifetimeMax   int64 // highest height started or learned as decided in this lifetime (-1 = none)
 	pendingSaves  []saveRec
-	modelHighest  *saveRec                      // what the store must hold as highest (per the writes that completed)
-	modelHist     map[specqbft.Height]*saveRec  // historical instances (full node)
+	modelHighest  *saveRec                     // what the store must hold as highest (per the writes that completed)
+	modelHist     map[specqbft.Height]*saveRec // historical instances (full node)
 	hist          []string
 	certRounds    map[specqbft.Height]map[specqbft.Round]bool // rounds of the certificates processed per height
 	decidedLate   map[specqbft.Height]bool                    // height learned as decided (in a completed step) -> learned while a higher height was already started
